@@ -175,14 +175,14 @@ class Pass:
 
     def assign(self, st, target, value):
         if isinstance(target, ast.Name):
+            # calls nested in the right-hand side act before the name is rebound
+            self.scan_calls(st, value)
             o = self.origin(value)
             if o is not None:
                 self.taint[target.id] = o
             else:
                 self.taint.pop(target.id, None)
             self.defs[target.id] = ast.unparse(value)
-            # nested calls on the right-hand side may edit in place too
-            self.scan_calls(st, value)
         elif isinstance(target, ast.Subscript):
             self.record(st, target.value, "setitem", ast.unparse(target.slice), ast.unparse(value))
             self.scan_calls(st, value)
@@ -255,29 +255,89 @@ class Pass:
 
 def main():
     out_path = sys.argv[1]
+    cfg = json.load(open(os.path.join(os.path.dirname(os.path.abspath(__file__)), "fields_C06.json")))
     mods = parse_all()
     cached = cached_names(mods)
-    records = []
+    funcs = []
     for mod, tree in sorted(mods.items()):
         for node in tree.body:
-            funcs = []
             if isinstance(node, ast.ClassDef):
                 for n in node.body:
                     if isinstance(n, ast.FunctionDef):
                         decos = [ast.unparse(d) for d in n.decorator_list]
-                        funcs.append((node.name, n, "staticmethod" not in decos))
+                        funcs.append((mod, node.name, n, "staticmethod" not in decos))
             elif isinstance(node, ast.FunctionDef):
-                funcs.append(("", node, False))
-            for cname, f, is_method in funcs:
-                doc = (ast.get_docstring(f) or "").lower()
-                documented = "in place" in doc or "in-place" in doc or "inplace" in doc
-                for rec in Pass(f, cached, is_method, documented).run():
-                    rec.update(module=mod, cls=cname, func=f.name,
-                               cached=f.name in cached)
-                    records.append(rec)
-    # Lean table: one entry per (class, function) with edits
-    groups = {}
+                funcs.append((mod, "", node, False))
+    # pass 1: every function's own edits
+    per_func = {}
+    for mod, cname, f, is_method in funcs:
+        doc = (ast.get_docstring(f) or "").lower()
+        documented = "in place" in doc or "in-place" in doc or "inplace" in doc
+        p = Pass(f, cached, is_method, documented)
+        recs = p.run()
+        per_func[(mod, cname, f.name)] = (f, is_method, recs)
+    # summaries: parameter positions a function edits without restoring (by function name)
+    arg_edit = {}
+    for (mod, cname, fname), (f, is_method, recs) in per_func.items():
+        params = [a.arg for a in f.args.args]
+        if is_method and params:
+            params = params[1:]
+        for r in recs:
+            if r["kind"] == "arg" and r["verdict"] != "restored" and r["name"] in params:
+                if r["name"] in cfg["scalar_params"].get(f"{cname}.{fname}", []):
+                    continue
+                arg_edit.setdefault(fname, set()).add((params.index(r["name"]), r["name"]))
+    # pass 2: call sites handing a shared value to a function that edits that parameter
+    records = []
+    for (mod, cname, fname), (f, is_method, recs) in per_func.items():
+        p = Pass(f, cached, is_method, False)
+        p.visit_block(f.body)       # rebuild taint (flow-insensitive approximation: final map)
+        extra = []
+        for call in [n for n in ast.walk(f) if isinstance(n, ast.Call)]:
+            callee = call.func.attr if isinstance(call.func, ast.Attribute) else (
+                call.func.id if isinstance(call.func, ast.Name) else None)
+            if callee not in arg_edit or callee == fname:
+                continue
+            for pos, pname in arg_edit[callee]:
+                expr = None
+                if pos < len(call.args):
+                    expr = call.args[pos]
+                    # Class.f(self, x): shift by one
+                    if isinstance(call.func, ast.Attribute) and isinstance(call.func.value, ast.Name) \
+                            and call.func.value.id[:1].isupper() and call.args and \
+                            isinstance(call.args[0], ast.Name) and call.args[0].id == p.selfname:
+                        expr = call.args[pos + 1] if pos + 1 < len(call.args) else None
+                for k in call.keywords:
+                    if k.arg == pname:
+                        expr = k.value
+                if expr is None:
+                    continue
+                o = p.origin(expr)
+                if o is not None and o[0] in ("result", "field"):
+                    extra.append({"line": call.lineno, "kind": o[0], "name": o[1],
+                                  "how": "via-callee-" + callee, "var": ast.unparse(expr),
+                                  "index": "", "value": "", "verdict": "unrestored"})
+        for r in recs + extra:
+            r = dict(r)
+            r.update(module=mod, cls=cname, func=fname, cached=fname in cached)
+            records.append(r)
+    # filters: what belongs in the table
+    table = []
     for r in records:
+        key = f'{r["module"]}:{r["cls"]}.{r["func"]}'
+        is_mut = any(r["func"].startswith(pfx) for pfx in cfg["mutator_prefixes"])
+        if r["kind"] == "field" and is_mut:
+            continue                      # an object may rewrite its own fields in a mutator
+        if r["kind"] == "arg":
+            if r["func"].startswith("_") or is_mut and r["func"] != "__init__":
+                continue                  # private helper: judged at its call sites (pass 2)
+            if r["name"] in cfg["scalar_params"].get(f'{r["cls"]}.{r["func"]}', []):
+                continue
+        if key in cfg["exempt"]:
+            r = dict(r, verdict="documented", exempt=cfg["exempt"][key])
+        table.append(r)
+    groups = {}
+    for r in table:
         groups.setdefault((r["module"], r["cls"], r["func"]), []).append(r)
     lines = ["/- GENERATED by translate/gen_C06.py from the current /repo working tree — do not edit. -/",
              "import Pyunicorn.Model.Pure", "namespace Pyunicorn.Generated.StructC06",
@@ -286,16 +346,16 @@ def main():
     for (mod, cls, func), rs in sorted(groups.items()):
         eds = []
         for r in sorted(rs, key=lambda r: r["line"]):
-            kind = {"result": "result", "field": "field", "arg": "arg"}[r["kind"]]
             ok = "true" if r["verdict"] in ("restored", "documented") else "false"
-            eds.append(f'⟨.{kind}, "{r["name"]}", {ok}⟩')
+            eds.append(f'⟨.{r["kind"]}, "{r["name"]}", {ok}⟩')
         ents.append(f'  ("{mod}:{cls}.{func}", [{", ".join(eds)}])')
     lines.append("def effects : List (String × List Edit) := [\n" + ",\n".join(ents) + "]\n")
     lines.append("end Pyunicorn.Generated.StructC06")
     txt = "\n".join(lines) + "\n"
     if not os.path.exists(out_path) or open(out_path).read() != txt:
         open(out_path, "w").write(txt)
-    json.dump(records, open(os.path.splitext(out_path)[0] + ".json", "w"), indent=1)
+    json.dump({"table": table, "all": records}, open(os.path.splitext(out_path)[0] + ".json", "w"),
+              indent=1)
     return 0
 
 
